@@ -263,6 +263,13 @@ func resultNames(sig *types.Signature) []string {
 
 func (fc *fnCtx) contractEnv(st *State, old *State, callee *ssa.Function, args []Val, results []Val) *SpecEnv {
 	env := &SpecEnv{fc: fc, st: st, old: old, vars: map[string]Val{}, bound: map[string]Val{}, pkg: callee.Package(), lets: letsOf(fc.eng.contractFor(callee))}
+	if c := fc.eng.contractFor(callee); c != nil && c.ScopePkg != "" {
+		for _, p := range fc.eng.prog.AllPackages() {
+			if p.Pkg.Path() == c.ScopePkg {
+				env.pkg = p
+			}
+		}
+	}
 	if results != nil {
 		// locals of the callee named in its ensures clauses are existential witnesses here
 		wit := map[string]Val{}
@@ -304,6 +311,22 @@ func (fc *fnCtx) contractEnv(st *State, old *State, callee *ssa.Function, args [
 func (fc *fnCtx) applyContract(st *State, callee *ssa.Function, c *Contract, args []Val, ordKey string, pos token.Pos) []Val {
 	// 1. preconditions (+ type invariants of arguments)
 	env := fc.contractEnv(st, nil, callee, args, nil)
+	// recursion: the callee's measure, evaluated on the arguments, is smaller than ours
+	if callee == fc.top.fn && !fc.inline && !fc.specMode {
+		for i, d := range c.Decr {
+			if i >= len(fc.top.recMeasures) {
+				break
+			}
+			v, err := env.eval(d.Expr)
+			if err != nil {
+				fc.specError(d, err)
+				continue
+			}
+			m0 := fc.top.recMeasures[i]
+			g := fmt.Sprintf("(and (<= 0 %s) (< %s %s))", m0, env.coerce(v, types.Typ[types.Int]).T, m0)
+			fc.oblige(st, "decreases", fmt.Sprintf("call-%s-decreases%d", ordKey, i+1), g, "recursion measure decreases and is bounded below: "+d.Text, pos, true)
+		}
+	}
 	for i, r := range c.Requires {
 		g, err := env.goal(r.Expr)
 		if err != nil {
